@@ -23,7 +23,8 @@ RULE = ("Hypothesis-generated polygons of 3..12 vertices (thorough up to "
         "offsets (up to 2^26: polygons far from the origin) and scaling by "
         "powers of two never change the answer; "
         "cells_inside_polygon returns exactly the cells whose centre the "
-        "oracle puts inside. Non-trivial = a judged point level with a "
+        "oracle puts inside; grids of more than a million cells against analytic "
+        "rectangles. Non-trivial = a judged point level with a "
         "vertex, or a non-convex / self-intersecting polygon.")
 
 
@@ -227,7 +228,52 @@ def oracle(case):
     return {"nt": nt, "labels": sorted(set(labels))}
 
 
+def enum_large(tier):
+    shapes = [(1200, 1000), (1001, 1000)] if tier == "quick" else \
+        [(1200, 1000), (1001, 1000), (1000, 1000), (999, 1001), (2, 600000),
+         (1500, 1400)]
+    for nr, nc in shapes:
+        for k in range(2 if tier == "quick" else 4):
+            yield {"nrows": nr, "ncols": nc, "k": k}
+
+
+def large_oracle(case):
+    """cells_inside_polygon on grids of more than a million cells against
+    the analytic answer for axis-aligned rectangles whose edges lie a
+    quarter of a cell away from the cell centres."""
+    nr, nc, k = case["nrows"], case["ncols"], case["k"]
+    g = Grid("big", nc, nr, cellsize=1., xllcorner=0., yllcorner=0.)
+    # rectangle in cell units: [c0, c1) x [r0, r1) counted from the bottom
+    c0, c1 = [(0, nc), (nc // 3, nc - 2), (1, 2), (nc // 2, nc)][k]
+    r0, r1 = [(0, nr), (1, nr // 2), (0, nr), (0, 3)][k]
+    poly = np.array([[c0 - 0.25, r0 - 0.25], [c1 - 0.75, r0 - 0.25],
+                     [c1 - 0.75, r1 - 0.75], [c0 - 0.25, r1 - 0.75]]) + 0.5
+    df = g.cells_inside_polygon(poly)
+    cols = np.arange(c0, c1 - 0) if c1 - 1 >= c0 else np.zeros(0, int)
+    cols = np.arange(c0, c1)[:max(0, c1 - c0)]
+    cols = cols[(cols + 0.5 > poly[0, 0]) & (cols + 0.5 < poly[1, 0])]
+    rows_b = np.arange(r0, r1)
+    rows_b = rows_b[(rows_b + 0.5 > poly[0, 1]) & (rows_b + 0.5 < poly[2, 1])]
+    exp = ((nr - 1 - rows_b)[:, None] * nc + cols[None, :]).ravel()
+    got = np.sort(df["cell"].values.astype(np.int64))
+    if not np.array_equal(got, np.sort(exp)):
+        miss = np.setdiff1d(exp, got)
+        extra = np.setdiff1d(got, exp)
+        raise Violation(
+            f"cells_inside_polygon on a {nr}x{nc} grid: {len(got)} cells "
+            f"returned, {len(exp)} expected; {len(miss)} missing (e.g. "
+            f"{miss[:3].tolist()}), {len(extra)} not inside (e.g. "
+            f"{extra[:3].tolist()}); rectangle {poly.tolist()}")
+    xy = g.cell2coord(df["cell"].values)
+    if len(df) and not np.array_equal(xy, df[["x", "y"]].values):
+        raise Violation("cells_inside_polygon x, y differ from the centres "
+                        "of the listed cells")
+    return {"nt": True, "labels": [f"cells:{nr * nc}"]}
+
+
 SUBS = [
+    Sub("C15.large-grids", large_oracle, enumerate=enum_large,
+        shards=(4, 16)),
     Sub("C15.even-odd", oracle, strategy=cases, n=(400, 6000),
         shards=(16, 16)),
 ]
